@@ -308,18 +308,24 @@ func tokenChecks(rep *evid.Reporter, evals *int64) {
 			rep.Violation("token-different-query:"+kind, fmt.Sprintf("the cursor token of a %s listing stands for a different query (filter %s): %v vs %v", kind, raw, sqlTok, sqlDirect), replay)
 			return
 		}
-		// through the HTTP handler: ?cursor=<token>
-		st, rec := storeh.NewRecordingStore("b1", "l1")
-		b := recbackend.New("l1")
-		b.R = recbackend.Reads{GetAccountsWithVolumes: st.GetAccountsWithVolumes, GetLogs: st.GetLogs, GetTransactions: st.GetTransactions}
-		req := httptest.NewRequest("GET", "/api/ledger/v2/l1/"+httpPath+"?cursor="+url.QueryEscape(tok), nil).WithContext(engineh.QuietCtx())
-		w := httptest.NewRecorder()
-		newRouter(b, false).ServeHTTP(w, req)
-		got := collect(rec)
-		if len(got) == 0 {
-			rep.Violation("token-rejected-http:"+kind, fmt.Sprintf("GET %s?cursor=<token handed out by the server> answers %d without querying [filter %s]", httpPath, w.Code, raw), replay)
-		} else if strings.Join(got, "\n") != strings.Join(sqlDirect, "\n") {
-			rep.Violation("token-different-query-http:"+kind, fmt.Sprintf("the HTTP cursor path issues a different query for filter %s", raw), replay)
+		// through the HTTP handlers of both API versions: ?cursor=<token> (v1 runs the decoded query as it is for these three listings)
+		for _, prefix := range []string{"/api/ledger/v2/l1/", "/api/ledger/l1/"} {
+			st, rec := storeh.NewRecordingStore("b1", "l1")
+			b := recbackend.New("l1")
+			b.R = recbackend.Reads{GetAccountsWithVolumes: st.GetAccountsWithVolumes, GetLogs: st.GetLogs, GetTransactions: st.GetTransactions}
+			req := httptest.NewRequest("GET", prefix+httpPath+"?cursor="+url.QueryEscape(tok), nil).WithContext(engineh.QuietCtx())
+			w := httptest.NewRecorder()
+			newRouter(b, false).ServeHTTP(w, req)
+			got := collect(rec)
+			ver := "v2"
+			if !strings.Contains(prefix, "/v2/") {
+				ver = "v1"
+			}
+			if len(got) == 0 {
+				rep.Violation("token-rejected-http:"+ver+":"+kind, fmt.Sprintf("GET %s%s?cursor=<token handed out by the server> answers %d without querying [filter %s]", prefix, httpPath, w.Code, raw), replay)
+			} else if strings.Join(got, "\n") != strings.Join(sqlDirect, "\n") {
+				rep.Violation("token-different-query-http:"+ver+":"+kind, fmt.Sprintf("the %s HTTP cursor path issues a different query for filter %s: %v vs %v", ver, raw, got, sqlDirect), replay)
+			}
 		}
 	}
 	for _, withPIT := range []bool{false, true} {
